@@ -142,6 +142,7 @@ def is_nontrivial(u, case):
 
 B = G.base_case
 DIRECTED = [
+    B(host="xn--fa-hia.de", path=[["a"]]), B(host="xn--dca.fr"), B(host="www.xn--fa-hia.xn--p1ai"),  # valid punycode that is not the canonical IDNA spelling of anything: the bare codec would respell it
     B(path=[["a"]], trailing=True), B(path=[["a"], ["b"]], trailing=True, query=[(["q"], None)]), B(path=[["a"], [".."]]), B(path=[["a"], ["."]]),
     B(path=[["a"], [".."]], query=[(["q"], None)]), B(path=[], trailing=True, query=[(["q"], None)]), B(path=[["%2e%2e"], ["x"]]), B(path=[["a"], ["%2E"], ["b"]]),
     B(path=[["a"], [], [".."], ["b"]]), B(path=[[], []], trailing=True), B(path=[["a%2Fb"]]), B(user=["us%2Fer"]), B(user=["u%3F"], password=["p%23"]),
